@@ -105,12 +105,14 @@ def explore(ctx):
         coerced = {i: aggoracle.from_float(float(w)) if isinstance(w, int) else w for i, w in enumerate(want)}
         for fn in ('sum', 'min', 'max', 'avg'):
             # non-finite accumulators print as null / None
-            exp = {i: (None if isinstance(w, aglib.F) and not math.isfinite(show(w)) else w) for i, w in coerced.items()}
+            src = coerced if fn in ('sum', 'avg') else dict(enumerate(want))      # min and max are exact on integers (b2f85e2)
+            exp = {i: (None if isinstance(w, aglib.F) and not math.isfinite(show(w)) else w) for i, w in src.items()}
             check_rows('%s(string)' % fn, '* | json | %s(s) as y by i' % fn, sl, lambda r: r.get('y'), exp, binary=binary)
         # 4b. the same text padded with blanks: extraction trims it, so must every coercion
         slp = ['{"i": %d, "s": " %s  "}\n' % (i, t) for i, (t, _isint) in enumerate(lits)]
-        exp = {i: (None if isinstance(w, aglib.F) and not math.isfinite(show(w)) else w) for i, w in coerced.items()}
         for fn in ('sum', 'max'):
+            src = coerced if fn == 'sum' else dict(enumerate(want))
+            exp = {i: (None if isinstance(w, aglib.F) and not math.isfinite(show(w)) else w) for i, w in src.items()}
             check_rows('%s(padded string)' % fn, '* | json | %s(s) as y by i' % fn, slp, lambda r: r.get('y'), exp, binary=binary)
         check_rows('num(padded string)', '* | json | num(s) as y | fields i, y', slp, lambda r: r.get('y'),
                    dict(enumerate(want)), binary=binary)        # num() of integer text is that integer, exactly (43e6167)
@@ -120,6 +122,11 @@ def explore(ctx):
         for fn, f in (('num', lambda v: v), ('abs', abs), ('ceil', lambda v: v), ('floor', lambda v: v), ('round', lambda v: v)):
             check_rows('%s(integer)' % fn, '* | json | %s(x) as y | fields i, y' % fn, bl, lambda r: r.get('y'),
                        {i: (f(v) if f(v) <= I64_MAX else aggoracle.from_float(float(f(v)))) for i, v in big}, binary=binary)
+    # 4d. text holding an integer is that integer in + - * as well ("coerces to N wherever a number is expected")
+    tl = [(i, int(t)) for i, (t, isint) in enumerate(lits) if isint and I64_MIN + 1 <= int(t) <= I64_MAX - 1]
+    tlines = ['{"i": %d, "s": "%d"}\n' % (i, v) for i, v in tl]
+    for expr, f in (('s + 0', lambda v: v), ('0 + s', lambda v: v), ('s * 1', lambda v: v), ('s - 1', lambda v: v - 1), ('1 + s', lambda v: v + 1)):
+        check_rows('integer text in `%s`' % expr, '* | json | %s as y | fields i, y' % expr, tlines, lambda r: r.get('y'), {i: f(v) for i, v in tl})
     # 5. integer arithmetic: exact inside i64, a float (never a wrapped / saturated int) outside
     ints = [0, 1, -1, 2, 3, 10**9, 2**31, 2**32, 2**53, 2**62, 2**63 - 1, -2**63, -2**62, 3037000500, -3037000500, 4294967296, 9223372036854775806]
     al = []
